@@ -121,6 +121,25 @@ def run(ctx):
         toks = lang.alpha(text)
         cases.append(text_case(toks, text))
         n_g += 1
+    # whitespace-only texts (not the empty string): no token at all
+    for text in [' ', '  ', '\t', '\n', ' \n ', '\r\n', '\u00a0', '\u2003', '\u3000', '\x0b\x0c', ' \t\n\r ']:
+        for route in ('parse', 'load', 'enforce'):
+            cases.append(text_case([], text, route))
+    # quoted words with hostile content: by the lexical rule a word that starts and ends
+    # with the same quote is a quoted string whatever is inside - never a check
+    import itertools as _it
+    core = ["'", '"', '\\', ':', 'a']
+    qwords = [''.join(p) for n in range(0, 5 if q else 7) for p in _it.product(core, repeat=n)]
+    if not q:
+        qalpha = core + ['x', '@', '1']
+        qwords += [''.join(p) for n in range(1, 5) for p in _it.product(qalpha, repeat=n)]
+    for w in qwords:
+        for qt in ("'", '"'):
+            text = qt + w + qt
+            cases.append(text_case([lang.STR], text))
+            if ctx.rng.random() < 0.15:
+                cases.append(text_case([lang.NOT, lang.STR], 'not ' + text))
+                cases.append(text_case([lang.LEAF0 + 1, lang.OR, lang.STR], 'role:r1 or ' + text))
     n_text = len(cases)
     # non-string rule values
     for vclass, v in VALUES:
